@@ -351,7 +351,7 @@ def run(tier, seed, replay=None):
     r = tlc.run_tlc("MC_DenseMatrix", c15.MC_CFG % 3, tlc.workdir("c16/design"), timeout=900)
     if not ck.require_tlc_ok("MC_DenseMatrix box exploration (dense semantics shared with SparseCCS)", r):
         ck.finish()
-    nprog, length = (1600, 12) if quick else (40000, 22)
+    nprog, length = (1600, 12) if quick else (12000, 22)
     parts = pmap(ck, _job, [(seed * 100 + i, nprog // 32, length) for i in range(32)], "c16", timeout=PMAP_TIMEOUT)
     runs = [t for p in parts for t in p]
     traces = []
